@@ -25,30 +25,55 @@ DefTol == [def |-> TRUE]
 Fact(sh, an, tol, k, wh, opts, al) ==
     [anns |-> an, n |-> sh.n, m |-> sh.m, tol |-> tol, k |-> k, which |-> wh, opts |-> opts, alpha |-> al]
 
-ReadsTol(fn) == fn \in {"diag", "trace"}
-ReadsK(fn) == fn \in {"eig", "svd"}
+TolFns == {"diag", "trace"}
+KFns == {"eig", "svd"}
+PlainFns == AC_Fns \ (TolFns \cup KFns \cup {"pow"})
+\* facts that an entry point does not read stay at their defaults; diag reads tol from the options, so the tol option
+\* is given exactly when the fact says so
 Combos ==
-    {[fn |-> fn, F |-> Fact(sh, an, tol, k, wh, opts, al)]:
-        fn \in AC_Fns, sh \in Shapes, an \in AnnSets, tol \in Tols, k \in {1, 2}, wh \in {"LM", "SM"},
-        opts \in OptSets, al \in {"m1", "int", "frac"}}
-\* drop the combinations that differ only in a fact the entry point does not read
-Relevant(x) ==
-    /\ (ReadsTol(x.fn) \/ x.F.tol = DefTol)
-    /\ (ReadsK(x.fn) \/ (x.F.k = 2 /\ x.F.which = "LM"))
-    /\ (x.fn = "pow" \/ x.F.alpha = "frac")
-    \* the tol option is given exactly when the fact says so (diag reads it from the options)
-    /\ (ReadsTol(x.fn) => (("tol" \in x.F.opts) <=> ~x.F.tol.def))
+    {[fn |-> fn, F |-> Fact(sh, an, DefTol, 2, "LM", opts, "frac")]:
+        fn \in PlainFns, sh \in Shapes, an \in AnnSets, opts \in OptSets}
+    \cup {[fn |-> fn, F |-> Fact(sh, an, DefTol, 2, "LM", opts, "frac")]:
+        fn \in TolFns, sh \in Shapes, an \in AnnSets, opts \in {o \in OptSets: "tol" \notin o}}
+    \cup {[fn |-> fn, F |-> Fact(sh, an, tol, 2, "LM", opts, "frac")]:
+        fn \in TolFns, sh \in Shapes, an \in AnnSets, tol \in Tols \ {DefTol}, opts \in {o \in OptSets: "tol" \in o}}
+    \cup {[fn |-> fn, F |-> Fact(sh, an, DefTol, k, wh, opts, "frac")]:
+        fn \in KFns, sh \in Shapes, an \in AnnSets, k \in {1, 2}, wh \in {"LM", "SM"}, opts \in OptSets}
+    \cup {[fn |-> "pow", F |-> Fact(sh, an, DefTol, 2, "LM", opts, al)]:
+        sh \in Shapes, an \in AnnSets, opts \in OptSets, al \in {"m1", "int", "frac"}}
 
-Init == c \in {x \in Combos: Relevant(x)}
+Init == c \in Combos
 Next == UNCHANGED c
 Spec == Init /\ [][Next]_vars
+
+\* in-run negative controls: instances of the selection with the CONSTANT AutoMutant substituted; "nc" lists the
+\* mutants whose statement is FALSE in this state (a control is caught when that happens in some state)
+A_UDL == INSTANCE AutoChoice WITH AutoMutant <- "UnaryDropLast"
+A_PO == INSTANCE AutoChoice WITH AutoMutant <- "PinvOverlap"
+A_ISC == INSTANCE AutoChoice WITH AutoMutant <- "InvSmallCG"
+A_SLD == INSTANCE AutoChoice WITH AutoMutant <- "SvdLargeDense"
+A_SPL == INSTANCE AutoChoice WITH AutoMutant <- "SlogdetPSDLU"
+A_ENP == INSTANCE AutoChoice WITH AutoMutant <- "EigNoPower"
+A_UUS == INSTANCE AutoChoice WITH AutoMutant <- "UnaryUsesSA"
+A_DS6 == INSTANCE AutoChoice WITH AutoMutant <- "DiagSwitch1e6"
+Ctl ==
+    LET nc == {<<"UnaryDropLast", A_UDL!AutoTotalAt(c.fn, c.F)>>,
+               <<"PinvOverlap", A_PO!AutoUniqueAt(c.fn, c.F)>>,
+               <<"InvSmallCG", A_ISC!AutoContractSmallAt(c.fn, c.F)>>,
+               <<"SvdLargeDense", A_SLD!AutoContractLargeAt(c.fn, c.F)>>,
+               <<"SlogdetPSDLU", A_SPL!AutoContractPSDAt(c.fn, c.F)>>,
+               <<"EigNoPower", A_ENP!AutoMatchesDocAt(c.fn, c.F)>>,
+               <<"UnaryUsesSA", A_UUS!AutoMatchesDocAt(c.fn, c.F)>>,
+               <<"DiagSwitch1e6", A_DS6!DiagChoiceSoundAt(c.fn, c.F)>>}
+        wit == {<<"AutoOptsForward", AutoOptsForwardAt(c.fn, c.F)>>}
+    IN [nc |-> {x[1]: x \in {y \in nc: ~y[2]}}, wit |-> {x[1]: x \in {y \in wit: ~y[2]}}]
 
 Out == LET o == AutoOutcome(c.fn, c.F)
            ch == AC_Chain(AC_Base(c.fn, c.F), c.fn, c.F)
        IN [fn |-> c.fn, F |-> c.F, base |-> AC_Base(c.fn, c.F), alg |-> o.alg, exc |-> o.exc,
            small |-> AC_Small(c.F), matching |-> Cardinality(AC_Matching(ch)), doc |-> AutoDoc(c.fn, c.F),
            docdev |-> AC_KnownDocDeviation(c.fn, c.F), iterbelow |-> (AC_Small(c.F) /\ AC_KnownIterBelow(c.fn, c.F)),
-           directabove |-> (~AC_Small(c.F) /\ AC_KnownDirectAbove(c.fn, c.F))]
+           directabove |-> (~AC_Small(c.F) /\ AC_KnownDirectAbove(c.fn, c.F)), ctl |-> Ctl]
 Emit == DoEmit => PrintT(ToJson(Out))
 \* the table of structural rules that pre-empt the Auto base case (printed once; compared with the live registry)
 Tables == [tables |-> [b \in AC_Bases \ {"none"} |-> AC_Structural(b)],
